@@ -206,8 +206,7 @@ def run_pairs(block, ctx):
         nb, fb = A[j]
         ra, rb_ = fa(), fb()
         ta, tb = refacl.text(ra), refacl.text(rb_)
-        combined = "".join("%s  %%generator_names=%s\n" % (ln.rstrip(), g)
-                           for g, t in (("ga", ta), ("gb", tb)) for ln in t.split("\n") if ln.strip())
+        combined = aclgen.combined_text([("ga", ta), ("gb", tb)])
         try:
             ca, cb, cab = compile_text(ta), compile_text(tb), compile_text(combined)
         except Exception as e:  # noqa
@@ -276,8 +275,7 @@ def run_mpair(block, ctx):
     name, fa, fb = aclgen.merge_pairs()[block["i"]]
     ra, rb_ = fa(), fb()
     ta, tb = refacl.text(ra), refacl.text(rb_)
-    combined = "".join("%s  %%generator_names=%s\n" % (ln.rstrip(), g)
-                       for g, t in (("ga", ta), ("gb", tb)) for ln in t.split("\n") if ln.strip())
+    combined = aclgen.combined_text([("ga", ta), ("gb", tb)])
     cab = compile_text(combined)
     lvl = refacl.top(refacl.merge([("ga", ra), ("gb", rb_)]))
     rows = []
@@ -333,8 +331,7 @@ def replay(case):
         from annet.annlib import patching
         name, fa, fb = aclgen.merge_pairs()[case["i"]]
         ra, rb_ = fa(), fb()
-        combined = "".join("%s  %%generator_names=%s\n" % (ln.rstrip(), g)
-                           for g, t in (("ga", refacl.text(ra)), ("gb", refacl.text(rb_))) for ln in t.split("\n") if ln.strip())
+        combined = aclgen.combined_text([("ga", refacl.text(ra)), ("gb", refacl.text(rb_))])
         got = to_list(patching.apply_acl(env.to_odict(case["forest"]), compile_text(combined)))
         exp = refacl.ref_filter(refacl.top(refacl.merge([("ga", ra), ("gb", rb_)])), case["forest"], PREFIX)
         if got != exp:
@@ -353,8 +350,7 @@ def replay(case):
         ra = [refacl.ARule.from_json(d) for d in case["a"]]
         rb_ = [refacl.ARule.from_json(d) for d in case["b"]]
         ta, tb = refacl.text(ra), refacl.text(rb_)
-        combined = "".join("%s  %%generator_names=%s\n" % (ln.rstrip(), g)
-                           for g, t in (("ga", ta), ("gb", tb)) for ln in t.split("\n") if ln.strip())
+        combined = aclgen.combined_text([("ga", ta), ("gb", tb)])
         cfg = env.to_odict(case["forest"])
         ga = to_list(patching.apply_acl(cfg, compile_text(ta)))
         gb = to_list(patching.apply_acl(cfg, compile_text(tb)))
